@@ -626,3 +626,17 @@ Proof.
   pose proof (mix_sender_order n progs sched t i) as H. pose proof (xrun_keeps_nsubs sched (xinit n progs)) as Hn.
   destruct (xrun sched (xinit n progs)) as [s ts]. cbn in Hn. rewrite Hn in H. exact H.
 Qed.
+
+(* end to end: at any moment, what the receivers of the MultiPort have been handed, plus what waits in its deque, plus what the one
+   thread inside a sweep holds, is exactly what was taken off the sub-ports by sweeps, in that order; and every sub-port's deque
+   has handed out (to direct receivers and to sweeps together) a prefix of what was put into it *)
+Theorem mix_end_to_end n progs sched :
+  let '(s, ts) := xrun sched (xinit n progs) in
+  swept (xpops s) = popped 0 (xpops s) ++ xq s 0 ++ inflight s ts /\
+  forall i, exists rest, map snd (xapp s (S i)) = popped (S i) (xpops s) ++ rest.
+Proof.
+  pose proof (mix_sweep_conserves n progs sched) as H1. pose proof (mix_exactly_once n progs sched) as H2.
+  destruct (xrun sched (xinit n progs)) as [s ts]. cbn [fst] in H2. split.
+  - rewrite H1, (H2 0%nat), <- app_assoc. reflexivity.
+  - intros i. exists (xq s (S i)). apply H2.
+Qed.
